@@ -12,7 +12,7 @@
    show that the hypotheses never exclude a state or a store answer. *)
 From Coq Require Import List NArith ZArith Bool Lia.
 From Verif Require Import Locks.Model Locks.ProofsBase Locks.ProofsInv Locks.ProofsCommit Locks.ProofsLock
-  Locks.ProofsLockAgg Locks.ProofsLockAll Locks.ProofsMain Locks.ProofsKA Locks.ProofsSched Locks.ProofsPrim Locks.ProofsEarly.
+  Locks.ProofsLockAgg Locks.ProofsLockAll Locks.ProofsMain Locks.ProofsKA Locks.ProofsSched Locks.ProofsPrim Locks.ProofsEarly Locks.ProofsHeld Locks.ProofsHeldLock.
 Import ListNotations.
 Open Scope N_scope.
 
@@ -493,3 +493,56 @@ Example C06_early_key_exists_examples :
   E [ESet 2; ELock [2] false false false 10 (ok_lock [2]); EMark 2; EUnmark 2] [2] = true /\
   E [ELock [1] false false false 10 (ok_lock [1]); EMark 1; EUnmark 1] [1] = false.
 Proof. vm_compute. auto 12. Qed.
+
+(* the converse of the bookkeeping invariant (oracle A of the check as a theorem): while the transaction is open, every
+   key the client tracks as locked — flagged, a current aggressive-locking key, a previous-attempt key unless a call of
+   this attempt failed — holds a lock in the store that NO pending background release removes, however late it runs.
+   On top of [wf_run] this needs ([wf_run_held]): a fresh for-update ts for every LockKeys (greater than every ts used
+   so far, hence than the ts of every pending rollback: [fresh_ts]); a store that reports success only if it locked every
+   key of the call (or found it absent under lock-only-if-exists: [store_ok]); and, after a LockKeys that failed inside an
+   aggressive-locking attempt, Retry / Cancel / Done before the next LockKeys ([next_blocked]; cf.
+   C06_note_skip_after_failed_relock).  Seeded change C01-5 (rollback ts taken when the task runs) breaks exactly this. *)
+Theorem C06_tracked_keys_hold_locks :
+  forall evs : list ev, wf_run_held false (init true) evs ->
+  let s := run (init true) evs in
+  valid s = true ->
+  forall k,
+    (In k (flags s) \/ in_cur s k = true \/ (blocked_after false (init true) evs = false /\ in_prev s k = true)) ->
+    exists l, In (k, l) (store s) /\ forall t, In t (tasks s) -> releases t (k, l) = false.
+Proof. exact tracked_keys_hold_locks. Qed.
+Print Assumptions C06_tracked_keys_hold_locks.
+
+Ltac held_solve :=
+  vm_compute; repeat split; intros; try discriminate;
+  repeat match goal with
+         | H : _ \/ _ |- _ => destruct H
+         | H : False |- _ => destruct H
+         | H : TPessRb _ _ = TPessRb _ _ |- _ => inversion H; clear H; subst
+         | H : Some _ = Some _ |- _ => inversion H; clear H; subst
+         end; subst; try reflexivity; try discriminate; try (vm_compute; reflexivity); try tauto; auto 6.
+
+(* a run inside the contract: a failed multi-key call, its retry with a fresh ts, an attempt with a failed call followed by
+   Retry, a key taken over without a request, Done — pending rollbacks run late *)
+Definition held_run : list ev :=
+  [ELock [1; 2] false false false 10 (ok_lock [1; 2]);
+   ELock [3; 4] false false false 20 (fail_lock [3] FNoWait);
+   ELock [3] false false false 30 (ok_lock [3]);
+   EAggStart; ELock [5] false false false 40 (ok_lock [5]);
+   ELock [6] false false false 50 (fail_lock [] FDeadlock); EAggRetry;
+   ELock [5] false false false 60 (ok_lock [5]); ELock [7] false false false 70 (ok_lock [7]); EAggDone;
+   ERun 0; ERun 0].
+Example C06_tracked_keys_hold_locks_run :
+  wf_run_held false (init true) held_run /\
+  let s := run (init true) held_run in
+  valid s = true /\ flags s = [1; 2; 3; 7; 5] /\ map fst (store s) = [7; 5; 3; 1; 2] /\ tasks s = [].
+Proof. split; [held_solve|]. vm_compute. auto. Qed.
+
+(* each extra clause matters (all three runs satisfy [wf_run]): a retry with the SAME for-update ts loses its lock to the
+   late rollback of the failed call; a store that acknowledges without locking; (the third clause:
+   C06_note_skip_after_failed_relock) *)
+Example C06_tracked_keys_need_the_contract :
+  (let evs := [ELock [1; 2] false false false 10 (fail_lock [1] FNoWait); ELock [1] false false false 10 (ok_lock [1]); ERun 0] in
+   wf_run (init true) evs /\ flags (run (init true) evs) = [1] /\ store (run (init true) evs) = []) /\
+  (let evs := [ELock [1] false false false 10 (ok_lock [])] in
+   wf_run (init true) evs /\ flags (run (init true) evs) = [1] /\ store (run (init true) evs) = []).
+Proof. split; (split; [wf_solve|vm_compute; auto]). Qed.
